@@ -73,6 +73,40 @@ def check_save(rep, repo):
     rep.fn("SAVE-pure-summary", fi, "save has an empty write set on the model", True)
 
 
+FLAG_DOMAINS = {"status": {"STANDARD", "PROTOTYPE"}, "relevant": {"RELEVANT", "IRRELEVANT"}}
+
+
+def _flag_identity(e) -> bool:
+    """A two-valued flag field re-assigned to the constant it already equals: `x.f = A if x.f == A else B` with {A, B} the
+    two values the field's setter accepts.  The stored value does not change."""
+    from ..ir import facts
+    t, v = e.target, e.value
+    if e.aug or t[0] != "attr" or t[2] not in FLAG_DOMAINS or v is None:
+        return False
+    strip = lambda x: x[1] if x[0] == "old" else x
+    dom = FLAG_DOMAINS[t[2]]
+
+    def holds(k, fs):  # do the tests say the field equals constant k?
+        for c in fs:
+            if c[0] != "cmp" or c[1] not in ("==", "!="):
+                continue
+            sides = [strip(c[2]), strip(c[3])]
+            if t not in sides:
+                continue
+            other = sides[1] if sides[0] == t else sides[0]
+            if other[0] != "K" or other[1] not in dom:
+                continue
+            if (c[1] == "==" and other[1] == k) or (c[1] == "!=" and {other[1], k} == dom):
+                return True
+        return False
+    if v[0] == "K" and v[1] in dom:
+        return holds(v[1], facts(e.guards))
+    if v[0] == "sel" and v[2][0] == "K" and v[3][0] == "K" and {v[2][1], v[3][1]} == dom:
+        from ..ir import mk_not
+        return holds(v[2][1], [v[1]]) and holds(v[3][1], [mk_not(v[1])])
+    return False
+
+
 def check_load(rep, repo):
     fi = repo.need_method("OPF", "load")
     w = Walker(repo, fi, self_class="OPF", inline=inline_private_model_helpers)
@@ -100,6 +134,8 @@ def check_load(rep, repo):
             if r == obj or (r[0] == "old" and r[1] == obj):
                 rep.ev("LOAD-untouched", e, False, "the loaded object is modified before its state is installed")
             elif r == ("self",):
+                if _flag_identity(e):
+                    continue  # `n.status = PROTOTYPE if n.status == PROTOTYPE else STANDARD`: the value the field holds
                 rep.ev("LOAD-only-install", e, False, "load stores something other than the loaded state on self")
         if e.kind == "call" and e.target is not None and e.target[0] == "attr" and root_object(e.target[1]) == obj \
                 and ws.get(e.target[2]):
@@ -192,15 +228,109 @@ def _class_level_constant(repo, ci, node, name) -> bool:
     return immutable(v)
 
 
+def _slots_protocol(repo, ci):
+    """The flat-storage protocol: `__slots__ = S` (a tuple of field names), `__getstate__` returns the fields named by S in
+    that order (`attrgetter(*S)(self)` or a tuple of `getattr(self, n)` over S) and `__setstate__` assigns them back in the
+    same order (`for n, v in zip(S, state): setattr(self, n, v)`, a dictionary state being read through S first).
+    Returns None when the class does not use it, (True, "") when it does and every field the class stores is in S, and
+    (False, reason) when the pieces disagree - the record written is then not the record read back."""
+    mi = repo.modules[ci.module]
+
+    def names_of(v):
+        """tuple of strings a module-level / literal expression denotes, else None"""
+        if isinstance(v, ast.Name):
+            b = [x for x in mi.tree.body if isinstance(x, ast.Assign) and any(isinstance(t, ast.Name) and t.id == v.id for t in x.targets)]
+            if len(b) != 1:
+                return None
+            v = b[0].value
+        if isinstance(v, (ast.Tuple, ast.List)) and all(isinstance(x, ast.Constant) and isinstance(x.value, str) for x in v.elts):
+            return tuple(x.value for x in v.elts)
+        return None
+    slots = [x for x in ci.node.body if isinstance(x, ast.Assign) and any(isinstance(t, ast.Name) and t.id == "__slots__" for t in x.targets)]
+    gs, ss = ci.methods.get("__getstate__"), ci.methods.get("__setstate__")
+    if len(slots) != 1 or gs is None or ss is None:
+        return None
+    S = names_of(slots[0].value)
+    if S is None or len(set(S)) != len(S):
+        return None
+    body = lambda f: [x for x in f.node.body if not (isinstance(x, ast.Expr) and isinstance(x.value, ast.Constant))]
+    # __getstate__
+    gb = body(gs)
+    if len(gb) != 1 or not isinstance(gb[0], ast.Return) or gb[0].value is None:
+        return None
+    rv = gb[0].value
+    got = None
+    if isinstance(rv, ast.Call) and isinstance(rv.func, ast.Name) and len(rv.args) == 1 and unparse(rv.args[0]) == "self" and not rv.keywords:
+        b = [x for x in mi.tree.body if isinstance(x, ast.Assign) and any(isinstance(t, ast.Name) and t.id == rv.func.id for t in x.targets)]
+        if len(b) == 1 and isinstance(b[0].value, ast.Call) and unparse(b[0].value.func) in ("attrgetter", "operator.attrgetter") \
+                and not b[0].value.keywords:
+            a = b[0].value.args
+            if len(a) == 1 and isinstance(a[0], ast.Starred):
+                got = names_of(a[0].value)
+            elif all(isinstance(x, ast.Constant) and isinstance(x.value, str) for x in a):
+                got = tuple(x.value for x in a)
+    elif isinstance(rv, ast.Call) and isinstance(rv.func, ast.Name) and rv.func.id == "tuple" and len(rv.args) == 1 \
+            and isinstance(rv.args[0], (ast.GeneratorExp, ast.ListComp)) and len(rv.args[0].generators) == 1:
+        g = rv.args[0].generators[0]
+        if not g.ifs and isinstance(g.target, ast.Name) and unparse(rv.args[0].elt) == f"getattr(self, {g.target.id})":
+            got = names_of(g.iter)
+    if got is None:
+        return None
+    # __setstate__
+    sb = body(ss)
+    sparam = ss.params[1] if len(ss.params) == 2 else None
+    if sparam is None or not sb:
+        return None
+    if isinstance(sb[0], ast.If) and len(sb) == 2 and not sb[0].orelse and unparse(sb[0].test) == f"isinstance({sparam}, dict)":
+        conv = [x for x in sb[0].body if not (isinstance(x, ast.Expr) and isinstance(x.value, ast.Constant))]
+        okc = len(conv) == 1 and isinstance(conv[0], ast.Assign) and unparse(conv[0].targets[0]) == sparam \
+            and isinstance(conv[0].value, (ast.ListComp, ast.GeneratorExp)) and len(conv[0].value.generators) == 1 \
+            and names_of(conv[0].value.generators[0].iter) == S and not conv[0].value.generators[0].ifs \
+            and unparse(conv[0].value.elt) == f"{sparam}[{unparse(conv[0].value.generators[0].target)}]"
+        if not okc:
+            return None
+        sb = sb[1:]
+    if len(sb) != 1 or not isinstance(sb[0], ast.For) or sb[0].orelse:
+        return None
+    lp = sb[0]
+    it = lp.iter
+    if not (isinstance(it, ast.Call) and unparse(it.func) == "zip" and len(it.args) == 2 and unparse(it.args[1]) == sparam
+            and isinstance(lp.target, ast.Tuple) and len(lp.target.elts) == 2 and all(isinstance(x, ast.Name) for x in lp.target.elts)):
+        return None
+    put = names_of(it.args[0])
+    lb = [x for x in lp.body if not (isinstance(x, ast.Expr) and isinstance(x.value, ast.Constant))]
+    a, b = lp.target.elts[0].id, lp.target.elts[1].id
+    if put is None or len(lb) != 1 or unparse(lb[0]) not in (f"setattr(self, {a}, {b})", f"object.__setattr__(self, {a}, {b})"):
+        return None
+    stored = {n.attr for f in list(ci.methods.values()) + list(ci.setters.values()) for n in ast.walk(f.node)
+              if isinstance(n, ast.Attribute) and isinstance(n.ctx, ast.Store) and unparse(n.value) == "self"}
+    # (a property setter stores under the private name, which is the slot)
+    stored = {n for n in stored if n not in ci.setters}
+    if got != S:
+        return False, f"__getstate__ reads {list(got)} while __slots__ / __setstate__ use {list(S)}: fields come back exchanged or missing"
+    if put != S:
+        return False, f"__setstate__ assigns {list(put)} from a state written in the order {list(S)}"
+    if not stored <= set(S):
+        return False, f"fields {sorted(stored - set(S))} are stored on the object but are not slots"
+    return True, ""
+
+
 def check_state(rep, repo):
     n = 0
     for cname in CLASSES:
         ci = repo.find_class(cname)
+        proto = _slots_protocol(repo, ci)
+        if proto is not None:
+            rep.chk.ob("STATE-slots", cname, "__slots__ / __getstate__ / __setstate__", proto[0],
+                       proto[1] or "flat storage: the fields written are the fields read back, in the same order",
+                       file=repo.modules[ci.module].relpath, line=ci.node.lineno)
         for node in ci.node.body:
             if isinstance(node, (ast.Assign, ast.AnnAssign, ast.AugAssign)):
                 tgts = node.targets if isinstance(node, ast.Assign) else [node.target]
                 for t in tgts:
                     name = unparse(t)
+                    if name == "__slots__" and proto is not None:
+                        continue
                     if name in FORBIDDEN:
                         rep.chk.ob("STATE-filter", cname, unparse(node)[:80], False,
                                    f"{name} changes what pickle stores / restores", file=repo.modules[ci.module].relpath,
@@ -220,6 +350,8 @@ def check_state(rep, repo):
             n += 1
             if fi.name == "__setstate__" and _adopting_setstate(repo, ci, fi):
                 rep.fn("STATE-filter", fi, f"{cname}.__setstate__ adopts the pickled dictionary as it is", True)
+            elif fi.name in ("__getstate__", "__setstate__") and proto is not None:
+                pass  # decided by STATE-slots
             elif fi.name in FORBIDDEN:
                 rep.fn("STATE-filter", fi, f"{cname} defines {fi.name}", False,
                        f"{fi.name} changes what pickle stores / restores")
